@@ -76,7 +76,7 @@ Definition in_regime (i : inp) (src : files) (m : loaded) : bool :=
   forallb (fun kv => arr_wf (snd kv)) src && str_nodup (names src) && str_nodup (names (i_others i)) &&
   match l_created m with [] => true | _ => false end &&
   has "spike_times.npy" src && has "spike_clusters.npy" src && has "spike_templates.npy" src &&
-  negb (is_none (l_amps m)) && is_none (l_tcols m) &&
+  has "channel_positions.npy" src && negb (is_none (l_amps m)) && is_none (l_tcols m) &&
   negb (has "clusters.channels.npy" src) && negb (has "clusters.peakToTrough.npy" src) &&
   src_wf m src && ids_ok (l_sclusters m) && ids_ok (l_stemplates m) &&
   int_toks (l_cmap m) && int_toks (l_probes m) &&
